@@ -1,4 +1,5 @@
 import TextxVerif.Proofs.LinkLocLoop
+import TextxVerif.LinkLocSpec
 /-!
 Exact description of the pending cross-references of the resolution loop of
 `LinkLoc` (C28): after `k` rounds the parser of a model holds exactly those
@@ -52,11 +53,6 @@ theorem All2.exists_left {α β : Type} {R : α → β → Prop} : ∀ {as : Lis
       exact ⟨b, List.mem_cons_of_mem _ hb, hr⟩
 
 /-! ## "postponed so far" -/
-
-/-- reference `id` was answered "postponed" in every round `< k` -/
-def pendB (ans : Nat → Nat → Answer) : Nat → Nat → Bool
-  | 0, _ => true
-  | k + 1, id => pendB ans k id && decide (ans k id = .postponed)
 
 theorem pendB_iff (ans : Nat → Nat → Answer) (id : Nat) :
     ∀ k, pendB ans k id = true ↔ ∀ j < k, ans j id = .postponed := by
@@ -606,6 +602,104 @@ theorem resolveLoop_gaveup (ans : Nat → Nat → Answer) (fs : List FileSpec) (
       rw [if_neg hnot, if_pos huc]
       simp only [errUnresolvable, hfd]
       exact ⟨_, rfl, rfl⟩
+
+/-! ## the executable specification (`LinkLocSpec.lean`) reflects the propositions -/
+
+theorem isResolved_iff (a : Answer) : isResolved a = true ↔ ∃ t, a = .resolved t := by
+  cases a <;> simp [isResolved]
+
+theorem resolvedBeforeB_iff (ans : Nat → Nat → Answer) (q : RefSpec) :
+    ∀ K, resolvedBeforeB ans K q.id = true ↔ ResolvedBefore ans K q := by
+  intro K
+  induction K with
+  | zero => simp [resolvedBeforeB, ResolvedBefore]
+  | succ K ih =>
+    simp only [resolvedBeforeB, Bool.or_eq_true, Bool.and_eq_true, ih, isResolved_iff, pendB_iff]
+    constructor
+    · rintro (⟨j, hj, t, ht⟩ | ⟨hp, t, ht⟩)
+      · exact ⟨j, by omega, t, ht⟩
+      · exact ⟨K, by omega, t, ht, hp⟩
+    · rintro ⟨j, hj, t, ht⟩
+      by_cases hjk : j < K
+      · exact Or.inl ⟨j, hjk, t, ht⟩
+      · have : j = K := by omega
+        subst this
+        exact Or.inr ⟨ht.2, t, ht.1⟩
+
+theorem progressB_iff (files : List FileSpec) (ans : Nat → Nat → Answer) (j : Nat) :
+    progressB files ans j = true ↔ Progress files ans j := by
+  simp only [progressB, List.any_eq_true, Bool.and_eq_true, isResolved_iff, pendB_iff, Progress, FirstAnswer]
+  constructor
+  · rintro ⟨g, hg, q, hq, hp, t, ht⟩
+    exact ⟨g, hg, q, hq, t, ht, hp⟩
+  · rintro ⟨g, hg, q, hq, t, ht, hp⟩
+    exact ⟨g, hg, q, hq, hp, t, ht⟩
+
+theorem gaveUpAtB_iff (files : List FileSpec) (ans : Nat → Nat → Answer) (K : Nat) :
+    gaveUpAtB files ans K = true ↔ GaveUpAt files ans K := by
+  simp only [gaveUpAtB, Bool.and_eq_true, List.all_eq_true, Bool.or_eq_true, resolvedBeforeB_iff,
+    ← postponedThrough_iff, progressB_iff, List.mem_range, GaveUpAt]
+
+theorem somePostponedB_iff (files : List FileSpec) (ans : Nat → Nat → Answer) (K : Nat) :
+    somePostponedB files ans K = true ↔ ∃ g ∈ files, ∃ q ∈ g.refs, PostponedThrough ans K q := by
+  simp only [somePostponedB, List.any_eq_true, ← postponedThrough_iff]
+
+theorem gaveUpAt_unique (files : List FileSpec) (ans : Nat → Nat → Answer) (K K' : Nat)
+    (h : GaveUpAt files ans K) (h' : GaveUpAt files ans K') : K = K' := by
+  have key : ∀ A B, GaveUpAt files ans A → GaveUpAt files ans B → ¬ A < B := by
+    intro A B hA hB hlt
+    obtain ⟨g, hg, q, hq, t, ht⟩ := hB.2 A hlt
+    rcases hA.1 g hg q hq with ⟨j, hj, t', ht'⟩ | hpt
+    · have := ht.2 j hj
+      rw [ht'.1] at this; cases this
+    · have := hpt A (Nat.le_refl _)
+      rw [ht.1] at this; cases this
+  have h1 := key K K' h h'
+  have h2 := key K' K h' h
+  omega
+
+theorem giveUpRound_eq (files : List FileSpec) (ans : Nat → Nat → Answer) (fuel K : Nat) (hK : K < fuel)
+    (hg : GaveUpAt files ans K) (hq : ∃ g ∈ files, ∃ q ∈ g.refs, PostponedThrough ans K q) :
+    giveUpRound files ans fuel = some K := by
+  unfold giveUpRound
+  cases hf : (List.range fuel).find? (fun K => gaveUpAtB files ans K && somePostponedB files ans K) with
+  | none =>
+    have := List.find?_eq_none.1 hf K (List.mem_range.2 hK)
+    simp [(gaveUpAtB_iff files ans K).2 hg, (somePostponedB_iff files ans K).2 hq] at this
+  | some K' =>
+    have hp := List.find?_some hf
+    simp only [Bool.and_eq_true] at hp
+    rw [gaveUpAt_unique files ans K' K ((gaveUpAtB_iff files ans K').1 hp.1) hg]
+
+theorem resolvedBefore_not_pend (ans : Nat → Nat → Answer) (K : Nat) (q : RefSpec)
+    (h : ResolvedBefore ans K q) : pendB ans (K + 1) q.id = false := by
+  obtain ⟨j, hj, t, ht⟩ := h
+  cases hp : pendB ans (K + 1) q.id with
+  | false => rfl
+  | true =>
+    have := (pendB_iff ans q.id (K + 1)).1 hp j (by omega)
+    rw [ht.1] at this; cases this
+
+theorem firstPending_eq (files : List FileSpec) (ans : Nat → Nat → Answer) (K : Nat) (f : FileSpec)
+    (r : RefSpec) (h : FirstUnresolvable files ans K f r) : firstPending files ans K = some (f, r) := by
+  obtain ⟨pre, post, r1, r2, hfs, hrefs, hpt, hpre, hr1⟩ := h
+  have hnone : ∀ (l : List RefSpec), (∀ q ∈ l, ResolvedBefore ans K q) →
+      l.find? (fun q => pendB ans (K + 1) q.id) = none := by
+    intro l hl
+    rw [List.find?_eq_none]
+    intro q hq
+    simp [resolvedBefore_not_pend ans K q (hl q hq)]
+  have hr : f.refs.find? (fun q => pendB ans (K + 1) q.id) = some r := by
+    rw [hrefs, List.find?_append, hnone r1 hr1]
+    simp [(postponedThrough_iff ans K r).1 hpt]
+  unfold firstPending
+  rw [hfs, List.findSome?_append]
+  have hpre' : pre.findSome? (fun g => (g.refs.find? fun q => pendB ans (K + 1) q.id).map fun q => (g, q)) = none := by
+    rw [List.findSome?_eq_none_iff]
+    intro g hg
+    rw [hnone g.refs (hpre g hg)]; rfl
+  rw [hpre']
+  simp [hr]
 
 /-! ## the `'\r'` alternative of `pos_to_linecol` -/
 
